@@ -152,12 +152,19 @@ def run_check(prop, tier, verif_seed, nruns, jobs, wall_cap, evidence_path=None,
     shrink_budget_total = 1200 if tier == 'quick' else 4000
     per = max(60, shrink_budget_total // max(1, min(len(groups), 8) * 2))
     unshrunk = 0
+    t_triage = time.time()
+    triage_cap = 60.0 if tier == 'quick' else 300.0
     for gi, (key, recs) in enumerate(sorted(groups.items())):
         picks = [recs[0]] + ([recs[len(recs) // 2]] if len(recs) > 2 else [])
         if gi >= 8:
             picks = [recs[0]]
         for rec in picks:
-            sc, v, used = core.shrink(engine, rec['scenario'], rec['violation'], f'shrink-{rec["i"]}', budget=per)
+            if time.time() - t_triage > triage_cap or gi >= 16:
+                # enough minimised examples: the rest is reported un-minimised
+                sc, v, used = rec['scenario'], rec['violation'], 0
+                unshrunk += 1
+            else:
+                sc, v, used = core.shrink(engine, rec['scenario'], rec['violation'], f'shrink-{rec["i"]}', budget=per)
             rr = core.execute_scenario(engine, sc, f'verify-{rec["i"]}')
             if rr['verdict'] != 'violation' or not core.same_failure(rr['violation'], v):
                 out_lines.append(f'HARNESS-ERROR non-deterministic: run {rec["i"]} minimised scenario did not reproduce')
